@@ -154,7 +154,7 @@ def scratch():
 USERKEYS = ['recipe', 'package', 'step', 'bob', 'language', 'custom']
 
 
-def scenario(kinds, metamask, executed):
+def scenario(kinds, metamask, executed, rev=False):
     base = os.path.join(scratch(), 'proj')
     shutil.rmtree(base, ignore_errors=True)
     BB.stepAction = lambda *a, **k: _Action()
@@ -169,7 +169,8 @@ def scenario(kinds, metamask, executed):
         if k == 1:
             steps[j].args.append(steps[i])
         elif k == 2:
-            steps[j].tools['t%d' % i] = Tool(steps[i])
+            # (tools are added to the audit in name order: with rev the tool that was itself built with another tool comes first)
+            steps[j].tools['t%d' % ((9 - i) if rev else i)] = Tool(steps[i])
         elif k == 3:
             if steps[j].sandbox is None:
                 steps[j].sandbox = Tool(steps[i])
@@ -243,19 +244,20 @@ def scenario(kinds, metamask, executed):
     return True, 'ok'
 
 
-def check_audit(k0: int, k1: int, k2: int, k3: int, k4: int, k5: int, metamask: int, executed: bool) -> bool:
+def check_audit(k0: int, k1: int, k2: int, k3: int, k4: int, k5: int, metamask: int, executed: bool, rev: bool) -> bool:
     """
     pre: 0 <= k0 <= 3 and 0 <= k1 <= 3 and 0 <= k2 <= 3 and 0 <= k3 <= 3 and 0 <= k4 <= 3 and 0 <= k5 <= 3
     pre: 0 <= metamask <= 63
     pre: k2 == V.SHARD[0] and k4 == V.SHARD[1]
     pre: V.SHARD[2] or metamask == 0 or metamask == 63 or metamask == 2 or metamask == 33
+    pre: V.SHARD[2] or rev == (V.SHARD[0] % 2 == 1)
     post: _
     """
     V.enter()
     kinds = [V.concretize(k, 4) for k in (k0, k1, k2, k3, k4, k5)]
     mm = V.concretize(metamask, 64)
     with V.fast():
-        ok, fact = scenario(kinds, mm, bool(executed))
+        ok, fact = scenario(kinds, mm, bool(executed), bool(rev))
     return V.verdict(ok, fact)
 
 
